@@ -105,11 +105,12 @@ CHECKS.update({
     "C18": dict(
         text="Lean (character level): wheel_roundtrip - for every name of 5 or 6 dash-free components + `.whl`, parse_wheel_tags "
              "returns exactly the python/abi/platform fields split on `.`, the build tag skipped; bad_extension, bad_part_count; "
-             "the documented platform aliases. Platform.parse(str(p)) == p for every X_Y is decided differentially "
-             "(all X,Y in 0..99 in the thorough tier) together with agreement with packaging.utils.parse_wheel_filename on "
-             "generated names.",
+             "the documented platform aliases; platform_roundtrip - Platform.parse(str(p)) == p for every platform of the "
+             "documented families (manylinux / musllinux / macos X_Y with every X, Y, windows; the arm64 / amd64 spellings), "
+             "down to int(str(n)) = n and the _platform_major_minor_re lexing. Differential: all X,Y in 0..99 in the thorough "
+             "tier and agreement with packaging.utils.parse_wheel_filename on generated names tie the character model to the code.",
         technique="Lean 4 proof on character lists + differential testing against packaging",
-        design_ref="6/C18"),
+        design_ref="0.2, 6/C18"),
 })
 
 CHECKS.update({
